@@ -11,6 +11,7 @@ import (
 	"grog/internal/console"
 	"grog/internal/label"
 	"grog/internal/model"
+	"grog/internal/output/handlers"
 )
 
 /*
@@ -154,7 +155,13 @@ func pathTriesToEscape(relPath string) bool {
 func checkOutputsAreWithinRepository(target *model.Target) (errs []error) {
 	workspaceRoot := config.Global.WorkspaceRoot
 
-	for _, output := range target.FileOutputs() {
+	for _, targetOutput := range target.AllOutputs() {
+		// Every output kind whose identifier is a path has to stay inside the workspace.
+		// Docker image names are not paths.
+		if targetOutput.Type == string(handlers.DockerHandler) {
+			continue
+		}
+		output := targetOutput.Identifier
 		if path.IsAbs(output) {
 			errs = append(errs, fmt.Errorf(
 				"output %s for target %s is not relative",
